@@ -60,6 +60,12 @@ def systematic(tier: str) -> list[dict]:
     for p in P.fam_nan():
         p["outs"] = {("out0" if k == "out" else k): v for k, v in p["outs"].items()}
         progs.append(p)
+    for p in P.fam_concat_empty():
+        p["outs"] = {("out0" if k == "out" else k): v for k, v in p["outs"].items()}
+        progs.append(p)
+    for p in P.fam_boolarith():
+        p["outs"] = {("out0" if k == "out" else k): v for k, v in p["outs"].items()}
+        progs.append(p)
     # how scalar constants are rendered in C (never thinned out).  Left out: floor
     # division / remainder with a floating-point operand (loopy's C target refuses:
     # "remainder and floordiv for floating-point types") and a complex scalar raised to
@@ -297,6 +303,23 @@ def check_kernels(run: Run, kernels: list[dict], by_id: dict) -> None:
     run.coverage["kernels_model_checked"] = len(small)
 
 
+_CMP = ("lt", "le", "gt", "ge", "eq", "ne")
+
+
+def _ordering_of_comparisons(prog: dict) -> bool:
+    """an ordering operation (maximum / minimum / < <= > >=) applied to the RESULT of a
+    comparison call (see known finding C01-nested-comparison-unparenthesized)"""
+    nin = len(prog["inputs"])
+    for c in prog["calls"]:
+        if c["op"] in ("maximum", "minimum", "lt", "le", "gt", "ge"):
+            for k in "ab":
+                ref = c.get(k)
+                if isinstance(ref, int) and not isinstance(ref, bool) and ref > nin \
+                        and prog["calls"][ref - nin - 1]["op"] in _CMP:
+                    return True
+    return False
+
+
 def main(tier: str, only: list[dict] | None = None) -> int:
     run = Run(PROP, tier, "exploration")
     progs = only if only is not None else programs(tier)
@@ -326,6 +349,8 @@ def main(tier: str, only: list[dict] | None = None) -> int:
                                "has_zeros_like": any(c["op"] in ("zeros_like", "ones_like")
                                                      for c in by_id[r["id"]]["calls"]),
                                "nan_into_minmax_reduction": bool(pr.get("nan_minmax")),
+                               "ordering_of_comparison_results": _ordering_of_comparisons(
+                                   by_id[r["id"]]),
                                "bool_scalar_in_comparison": any(
                                    c["op"] in ("lt", "le", "gt", "ge", "eq", "ne") and any(
                                        isinstance(c.get(k), dict) and (
